@@ -211,7 +211,11 @@ def lemma_brackets_automaton(reg, repo):
                         written.add("queue")
             bad = sorted(written & (set(AUTOMATON_VARS) | {"<control:Yield>", "<control:Return>", "<control:Break>",
                                                            "<control:Continue>"}))
-            vcs.append(("excluded_branch_L%d_leaves_the_automaton_alone" % ex.line(node), [], z3.BoolVal(not bad)))
+            if bad:
+                # not a violation: the proof simply no longer covers this branch -> undecided, the bounded part decides
+                raise Unsupported("the branch at L%d (outside the verified subset) now touches %s: the automaton step is "
+                                  "no longer covered by this contract" % (ex.line(node), bad))
+            vcs.append(("excluded_branch_L%d_leaves_the_automaton_alone" % ex.line(node), [], z3.BoolVal(True)))
     return vcs
 
 
@@ -301,7 +305,10 @@ def lemma_export_close_sentence(reg, repo):
                 if isinstance(n, (ast.Yield, ast.Return, ast.Break, ast.Continue)):
                     written.add("<control>")
         bad = sorted(written & (reader_vars | {"<control>"}))
-        vcs.append(("excluded_branch_L%d_leaves_the_reader_state_alone" % ex.line(node), [], z3.BoolVal(not bad)))
+        if bad:
+            raise Unsupported("the replace_parens branch at L%d now touches %s: closing a sentence is no longer covered "
+                              "by this contract" % (ex.line(node), bad))
+        vcs.append(("excluded_branch_L%d_leaves_the_reader_state_alone" % ex.line(node), [], z3.BoolVal(True)))
     return vcs
 
 
